@@ -14,7 +14,7 @@ CONSTANTS
   MaxDup = 1
   MaxPopCalls = 2
   Algo = "ring"
-  Impl = "fixed"
+  Impl = "fixABC"
   Sampling = FALSE
 INIT Init
 NEXT Next
